@@ -108,6 +108,27 @@ SEED = {
  "C18f": ("C18", "EmbeddedFS::metadata answers Directory for every normalised path of length <= 1", "metadata on a missing one-byte top-level name", "embedded-fs"),
  "C19f": ("C19", "PhysicalFS::metadata uses symlink_metadata", "a served entry that is a symbolic link: the setters change the target, metadata reports the link", ""),
  "C20f": ("C20", "the stream copy of copy_file / move_file writes through a BufWriter that is never flushed: write errors surface in its drop, which discards them", "any failing write on the destination handle: copy_file / move_file / copy_dir / move_dir / overlay copy-up report success with an empty destination", ""),
+ # seventh round
+ "C01g": ("C01", "MemoryFS entries in a BTreeMap; `list` scans forward from the directory's key while keys start with '<dir>/'", "a non-empty directory with a sibling named <dir> + a character below '/' (docs.txt, docs-old): read_dir empty, remove_dir succeeds", ""),
+ "C02g": ("C02", "PhysicalFS::exists uses Path::try_exists()? (errors are no longer swallowed)", "exists / is_file / is_dir / remove_dir_all on a path below a regular file: ENOTDIR becomes Err, MemoryFS says Ok(false)", ""),
+ "C03g": ("C03", "MemoryFS gains a native move_file (re-keys the map entry) that never checks that the source is a file", "move_file with a directory as source: children orphaned; source root: the root disappears", ""),
+ "C04g": ("C04", "async MemoryFS writer publishes on close() through a helper that moves the buffer out; the drop after it publishes the emptied buffer", "write, close().await, drop: the file reads back empty", "async-vfs"),
+ "C05g": ("C05", "VfsPath::is_file / is_dir go through one metadata() call and treat only FileNotFound as absent", "a path below a plain file on PhysicalFS: exists false, is_dir Err; overlay read_dir of a directory shadowing a lower physical file fails", ""),
+ "C06g": ("C06", "filename_internal feeds the BYTE offset of the last '/' to chars().skip()", "a multi-byte character before the last separator: filename() / extension() lose leading characters", ""),
+ "C07g": ("C07", "AltrootFS::create_dir calls create_dir_all on the underlying path", "create_dir on an existing directory: Ok; a missing altroot directory and its ancestors are created", ""),
+ "C08g": ("C08", "OverlayFS::append_file removes 'the truncated copy' after a failed copy-up, resolving it with read_path", "append_file on a lower-only directory of a nested overlay / a name too long for a physical write layer: remove_file reaches the lower layer", ""),
+ "C09g": ("C09", "OverlayFS::create_file clears the deletion marker before the lower-layer-directory check", "remove_dir a lower-layer directory, then create_file on it: error AND the directory is back", ""),
+ "C10g": ("C10", "OverlayFS::append_file takes its copy-up source from a helper that skips the marker lookup (as C01d, arrived at independently)", "append_file on a lower-layer file removed through the overlay", ""),
+ "C11g": ("C11", "the copy_file fallback reads the source with read_to_string and writes it back", "any file that is not UTF-8, copied across instances or within a MemoryFS / OverlayFS", ""),
+ "C12g": ("C12", "copy_file's final relabel with the source path is dropped", "same-instance copy_file on PhysicalFS / AltrootFS that fails in the backend: placeholder path, or the path of the layer below the adapter", ""),
+ "C13g": ("C13", "EmbeddedFS::metadata indexes its length map with a key that only rust-embed's lenient lookup accepted", "metadata / read_to_string on a backslash alias of an embedded file: panic", "embedded-fs"),
+ "C14g": ("C14", "MemoryFS reader overrides read_to_end without advancing the cursor", "read_to_end followed by any further use of the handle", ""),
+ "C15g": ("C15", "AsyncVfsPath::copy_dir opens the source walk before creating the destination", "copy_dir whose source is missing or a file: sync leaves an empty destination directory, async does not; error classes differ", "async-vfs"),
+ "C16g": ("C16", "MemoryFS::append_file moves the committed buffer into the writer when it is unshared", "a non-empty file: metadata / open between append-open and publish see length 0; two appenders lose the initial content", "verif-hooks (one of four demos; the others need none)"),
+ "C17g": ("C17", "AsyncOverlayFS::create_dir classifies the occupant from one torn read_path walk", "async tasks re-creating a path whose removed lower entry is a FILE: the loser reports FileExists", "async-vfs"),
+ "C18g": ("C18", "EmbeddedFS normalize_path rejects every path that contains '..' as a substring", "embedded names with two consecutive dots (v1..2.txt, ..data)", "embedded-fs"),
+ "C19g": ("C19", "OverlayFS::metadata reports for directories the newest modification time across all layers", "set_modification_time to a past value on a directory present in the write layer and a lower layer", ""),
+ "C20g": ("C20", "copy_dir rolls the destination back when an entry fails to copy and returns the clean-up's result", "any k-th-call fault after the destination was created: Ok(n) with no destination", ""),
 }
 matrix = {}
 mp = os.path.join(ROOT, "seeded", "matrix.txt")
